@@ -138,6 +138,7 @@ type Profile struct {
 	Boundary    bool // use 256-bit boundary amounts
 	// BusyFirstBlock allows transactions in block 1 (changes to genesis validators there hit known finding D8)
 	BusyFirstBlock bool
+	PCheck         float64 // probability that a generated transaction is only sent to CheckTx (mempool traffic that is never delivered)
 	Queries        int     // up to this many Query calls after every consensus call
 	PRestart       float64 // probability of a process restart after a commit
 	Contracts      bool
@@ -509,6 +510,15 @@ func (g *Gen) NextTx(v *View) *Op {
 		gas = tx.Gas
 	}
 	_ = zero
+	if g.P.Boundary && tx != nil && g.Rng.Intn(5) == 0 {
+		// the amount field of ANY transaction type at the 256-bit boundaries, in particular values that make fee + amount wrap
+		feeNow := new(big.Int).Mul(price.ToBig(), new(big.Int).SetUint64(tx.Gas))
+		wrap := new(big.Int).Sub(pow2(256), feeNow)
+		pool := []*big.Int{wrap, new(big.Int).Add(wrap, big.NewInt(1)), new(big.Int).Sub(pow2(256), big.NewInt(1)), pow2(255),
+			new(big.Int).Sub(pow2(255), big.NewInt(1)), new(big.Int).Sub(wrap, big.NewInt(1))}
+		tx.Amount = u256(pool[g.Rng.Intn(len(pool))])
+		tag += ":amountboundary"
+	}
 	auth := ""
 	chain := g.G.ChainID
 	signer := from
